@@ -104,6 +104,7 @@ LEVEL = "proof"
 THEOREMS = ["C07_fail_closed", "C07_damage", "C07_transient", "C07_partial_decode",
             "C07_pointer_run_safe_partial", "C07_pointer_run_safe_refuted", "C07_pointer_lost_hint_partial", "C07_pointer_raise_aborts",
             "C07_pointer_unreadable_never_used", "C07_marker_keep", "C07_registered_marker_fallback_covers",
+            "C07_registered_marker_key_denotes", "C07_basename_marker_fallback_refuted",
             "C07_metadata_document_fail_closed", "C07_lost_section_refused", "C07_dangling_current_refused", "C07_run_protects_current_snapshot",
             "C07_json_section_lost_aborts", "C07_readable_records_complete", "C07_structured_damage_aborts",
             "C07_list_record_without_path_refused",
@@ -127,9 +128,11 @@ MANIFEST_ENTRY = {
                   "C07_fail_closed (every fault oracle: an abort raised while reachability / in-flight protection is established deletes "
                   "nothing; otherwise only unreferenced, unprotected, old files are deleted), C07_damage (missing or unparseable reachable "
                   "list / manifest aborts before the first sweep, under any additional faults), C07_transient (a run that reaches the sweeps "
-                  "read every list and manifest without an effective fault), C07_marker_keep and C07_registered_marker_fallback_covers (the "
-                  "regenerated marker name the writer registers a file under and the regenerated fallback of the collector agree: the "
-                  "paths protected when a marker's payload cannot be read contain the registered file) proved in Coq over the call-by-call "
+                  "read every list and manifest without an effective fault), C07_marker_keep and C07_registered_marker_fallback_covers / C07_registered_marker_key_denotes (the "
+                  "regenerated marker key the writer registers a file under and the regenerated fallback of the collector agree, for EVERY path the "
+                  "regenerated append_files guard accepts -- any sub-directory of data/ -- and every table-relative path: what is protected when a "
+                  "marker's payload cannot be read is exactly the registered file; C07_basename_marker_fallback_refuted: false for markers keyed "
+                  "by the basename, the unchanged library) proved in Coq over the call-by-call "
                   "collector model with regenerated path kernel, for both orders of the two preparatory phases (regenerated MARKERS_FIRST); "
                   "C07_pointer_run_safe_partial (the pointer plane CONNECTED to the collector: pointer resolved twice over metadata FILES "
                   "identified by name and compared by content, any unpublished versions on storage, any exists / listing / stat / read "
@@ -226,6 +229,9 @@ def role_of(key: str, reach_lists: set, reach_mans: set) -> str:
 
 
 # ------------------------------------------------------------------------------------------ base tables
+ADOPTED_SUBDIR_KEYS = ["data/p1/x.parquet", "data/p2/deep/y.parquet"]
+
+
 def build_base(base: str, spec: Dict[str, Any]) -> Tuple[str, float]:
     """A table with spec['snaps'] retained snapshots and every kind of protected / unprotected file; all aged old."""
     import logging
@@ -264,6 +270,18 @@ def build_base(base: str, spec: Dict[str, Any]) -> Tuple[str, float]:
         tx = t.new_transaction().begin()
         tx.append_data([{"x": 1000}])
         # the transaction object is dropped: its marker and data file stay (a live writer in another process)
+    if spec.get("adopt_subdirs"):
+        # a live transaction that has ADOPTED pre-built files (Transaction.append_files: any canonical path below data/, so also
+        # files in sub-directories,) and has not committed yet: nothing but its markers protects them
+        import glob
+        from datashard.data_structures import DataFile, FileFormat
+        src = sorted(glob.glob(os.path.join(root, "data", "*.parquet")))[0]
+        for key in ADOPTED_SUBDIR_KEYS:
+            h5._plant(root, key, open(src, "rb").read())
+        tx2 = t.new_transaction().begin()
+        tx2.append_files([DataFile(file_path=key, file_format=FileFormat.PARQUET, partition_values={}, record_count=1,
+                                   file_size_in_bytes=os.path.getsize(src)) for key in ADOPTED_SUBDIR_KEYS])
+        # (the transaction object is dropped like the one above)
     if spec.get("pending", True):
         # a commit in progress: manifest written and registered, metadata not yet flipped
         h5._plant(root, "metadata/manifests/manifest_pending_1.avro", b"pending manifest bytes")
@@ -458,6 +476,9 @@ def run_table(spec: Dict[str, Any]) -> Dict[str, Any]:
         reach_lists, reach_mans = set(list_keys), set(man_keys)
         targets = [("list", i, k) for i, k in enumerate(list_keys)] + [("manifest", i, k) for i, k in enumerate(man_keys)]
         live = reader0.live_protected(now, TIMEOUT_MS)
+        if spec.get("adopt_subdirs"):
+            # what the live adopting transaction REGISTERED (ground truth, not what the markers on disk happen to say)
+            live |= set(ADOPTED_SUBDIR_KEYS)
         markers0 = reader0.markers()
         snaps = [sm.get("manifest_list") or "" for sm in snaps_meta]
         base_store = gcsim.store_term(root)
@@ -987,16 +1008,16 @@ def make_specs(ctx) -> List[Dict[str, Any]]:
     # multi_append: the newest commit adds several files (a manifest with several records); multiblock: lists and manifests
     # laid out with one Avro block per record (what a writer produces once a file outgrows a block)
     variants = [
-        {"snaps": 1, "rewrite": False, "expire": False, "multi_append": 3},
+        {"snaps": 1, "rewrite": False, "expire": False, "multi_append": 3, "adopt_subdirs": True},
         {"snaps": 2, "rewrite": True, "expire": False, "dead_writer": "append"},
-        {"snaps": 3, "rewrite": False, "expire": True, "legacy_marker": True, "multiblock": True, "dead_writer": "delete_snapshot"},
+        {"snaps": 3, "rewrite": False, "expire": True, "legacy_marker": True, "multiblock": True, "dead_writer": "delete_snapshot", "adopt_subdirs": True},
         {"snaps": 4, "rewrite": True, "expire": True, "multi_append": 2, "multiblock": True, "dead_writer": "expire"},
         # every reachable list / manifest in the legacy JSON format (JSON fallback of the readers)
         {"snaps": 2, "rewrite": True, "expire": False, "multi_append": 2, "legacy_json": True},
         # the collection runs on a third-party backend: a StorageBackend subclass implementing only the abstract methods, so
         # every helper with a default implementation in the base class is the default, composed from the primitives (faults_only:
         # byte / stream / structured damage of documents is a matter of the decoders, not of the backend: not repeated here)
-        {"snaps": 2, "rewrite": False, "expire": True, "legacy_marker": True, "backend": "thirdparty", "faults_only": True},
+        {"snaps": 2, "rewrite": False, "expire": True, "legacy_marker": True, "backend": "thirdparty", "faults_only": True, "adopt_subdirs": True},
     ]
     graces = [0] if quick else [0, 3600000]
     for vi, v in enumerate(variants):
